@@ -17,6 +17,8 @@ pub const THUNK_THR: usize = 10_000;
 pub const MW_THR: usize = 9_000;
 /// pseudo client-thread index of a stop() of another store made by effect e: XSTOP_THR + e
 pub const XSTOP_THR: usize = 11_000;
+/// pseudo client-thread index of store calls made by subscriber s from inside its callback: XCALL_THR + s
+pub const XCALL_THR: usize = 12_000;
 
 #[derive(Clone, Debug, PartialEq, Eq, Hash)]
 pub enum BlockOn {
@@ -41,6 +43,7 @@ impl From<simrt::Obj> for BlockOn {
             simrt::Obj::Sleep => BlockOn::Sleep,
             simrt::Obj::Settle => BlockOn::Settle,
             simrt::Obj::AllDone => BlockOn::AllDone,
+            simrt::Obj::Select => BlockOn::Condvar,
         }
     }
 }
@@ -218,6 +221,8 @@ pub struct World {
     mw_calls: std::sync::atomic::AtomicUsize,
     /// per store: a client thread has invoked close()/stop()/drop (harness-side flag, no scheduling point)
     shut_invoked: Vec<std::sync::atomic::AtomicBool>,
+    /// per subscriber: number of store calls made from inside its callbacks so far
+    sub_calls: Vec<std::sync::atomic::AtomicUsize>,
 }
 
 fn to_policy(p: Policy) -> BackpressurePolicy {
@@ -252,6 +257,13 @@ pub fn act_store_map(p: &Program) -> BTreeMap<ActId, usize> {
                 }
                 Op::Thunk { store, eff } | Op::Task { store, eff } => eff_acts(eff, *store, &mut m),
                 _ => {}
+            }
+        }
+    }
+    for sc in &p.subs {
+        if let Some((target, map)) = &sc.forward {
+            for b in map.values() {
+                m.insert(*b, *target);
             }
         }
     }
@@ -356,14 +368,23 @@ fn effect_body(w: &Arc<World>, store: usize, spec: &EffSpec, disp: Option<Box<dy
     drop(disp);
     if let EffKind::StopOther { store: other } = &spec.kind {
         let thr = XSTOP_THR + spec.id as usize;
-        w.log(K::Inv { thr, idx: 0, op: OpK::Stop { store: *other } });
+        let is_drop = w.droppables[*other].lock().unwrap().is_some();
+        w.log(K::Inv { thr, idx: 0, op: if is_drop { OpK::DropStore { store: *other } } else { OpK::Stop { store: *other } } });
         w.shut_invoked[*other].store(true, std::sync::atomic::Ordering::SeqCst);
-        let res = match w.store(*other) {
-            Some(o) => {
-                o.stop();
+        // the victim's DroppableStore is dropped here if it has one, else its handle is stopped
+        let dropped = w.droppables[*other].lock().unwrap().take();
+        let res = match dropped {
+            Some(d) => {
+                drop(d);
                 Res::Unit
             }
-            None => Res::Skipped,
+            None => match w.store(*other) {
+                Some(o) => {
+                    o.stop();
+                    Res::Unit
+                }
+                None => Res::Skipped,
+            },
         };
         w.log(K::Ret { thr, idx: 0, res });
     }
@@ -543,6 +564,34 @@ impl Subscriber<St, Act> for ScriptedSub {
         if cfg.sleep_ms > 0 {
             simrt::thread::sleep(Duration::from_millis(cfg.sleep_ms as u64));
         }
+        // calls into a store from inside the callback, logged like client calls of a pseudo thread
+        if let Some((trigger, reg)) = cfg.unsub_other {
+            if trigger == action.id {
+                let thr = XCALL_THR + self.sub;
+                let idx = w.sub_calls[self.sub].fetch_add(1, std::sync::atomic::Ordering::Relaxed);
+                w.log(K::Inv { thr, idx, op: OpK::Unsub { reg } });
+                let res = w.do_unsub(reg);
+                w.log(K::Ret { thr, idx, res });
+            }
+        }
+        if let Some((target, map)) = &cfg.forward {
+            if let Some(&b) = map.get(&action.id) {
+                let thr = XCALL_THR + self.sub;
+                let idx = w.sub_calls[self.sub].fetch_add(1, std::sync::atomic::Ordering::Relaxed);
+                w.log(K::Inv { thr, idx, op: OpK::Dispatch { store: *target, act: b, via: Via::Disp } });
+                let res = match w.store(*target) {
+                    Some(t) => {
+                        if Dispatcher::dispatch(&t, Act { id: b }).is_ok() {
+                            Res::Ok
+                        } else {
+                            Res::Err
+                        }
+                    }
+                    None => Res::Skipped,
+                };
+                w.log(K::Ret { thr, idx, res });
+            }
+        }
         w.log(K::NotE { sub: self.sub, act: action.id });
     }
     fn on_unsubscribe(&self) {
@@ -574,6 +623,7 @@ impl World {
             act_store,
             mw_calls: std::sync::atomic::AtomicUsize::new(0),
             shut_invoked: prog.stores.iter().map(|_| std::sync::atomic::AtomicBool::new(false)).collect(),
+            sub_calls: prog.subs.iter().map(|_| std::sync::atomic::AtomicUsize::new(0)).collect(),
             hist,
             prog,
         })
@@ -716,6 +766,18 @@ impl World {
         self.log(K::Ret { thr, idx, res });
     }
 
+    fn do_unsub(&self, reg: usize) -> Res {
+        let h = self.handles[reg].lock().unwrap().take();
+        match h {
+            Some(h) => {
+                h.unsubscribe();
+                *self.handles[reg].lock().unwrap() = Some(h);
+                Res::Unit
+            }
+            None => Res::Skipped,
+        }
+    }
+
     fn exec_inner(self: &Arc<World>, op: &Op) -> Res {
         match op {
             Op::Build { store } => Res::Built(self.build(*store)),
@@ -814,17 +876,7 @@ impl World {
                     Err(_) => Res::Err,
                 }
             }
-            Op::Unsub { reg } => {
-                let h = self.handles[*reg].lock().unwrap().take();
-                match h {
-                    Some(h) => {
-                        h.unsubscribe();
-                        *self.handles[*reg].lock().unwrap() = Some(h);
-                        Res::Unit
-                    }
-                    None => Res::Skipped,
-                }
-            }
+            Op::Unsub { reg } => self.do_unsub(*reg),
             Op::Iter { store, it } => {
                 let Some(s) = self.store(*store) else { return Res::Skipped };
                 let i: IterBox = Box::new(s.iter());
